@@ -62,3 +62,27 @@ Theorem P_loaded_data_routes_alike : forall d,
   (forall sid, find_scenario (canon d) sid = find_scenario d sid).
 Proof. exact canon_routing_data. Qed.
 Print Assumptions P_loaded_data_routes_alike.
+
+(* ---- END TO END (Proofs/EndToEnd.v): a server started (either cache mode) on the cache files that encode a well-formed
+   dataset d, after ANY finite history of requests, answers a /v2/route, alternatives or /v2/accessibility request of the
+   properties' domain with a response that is never a bad outcome and satisfies, AGAINST THE DATASET d: C01 (executable
+   itinerary), C02 (limits), C06 (totals), C07 (reason), C03/C04/C05 (declarative optimality), C10 (alternatives), C08/C09
+   (exact accessibility maps) ---- *)
+From TrV Require Import Properties.Common Proofs.EndToEnd.
+Theorem C16_served_route_answers_are_correct : forall all d h s p acc egr,
+  in_domain d s p acc egr -> encodable_b d = true ->
+  route_response_correct d s p acc egr (served all d h (QRoute p false acc egr)).
+Proof. exact served_route_answers_are_correct. Qed.
+Print Assumptions C16_served_route_answers_are_correct.
+
+Theorem C16_served_alternatives_are_correct : forall all d h h0 s p acc egr,
+  in_domain d s p acc egr -> encodable_b d = true ->
+  alt_response_correct d s p acc egr (served all d h0 (QRoute p false acc egr)) (served all d h (QRoute p true acc egr)).
+Proof. exact served_alternatives_ok. Qed.
+Print Assumptions C16_served_alternatives_are_correct.
+
+Theorem C16_served_accessibility_is_correct : forall all d h s p rows,
+  access_domain d s p rows -> encodable_b d = true ->
+  access_response_correct d s p rows (served all d h (QAccess p rows)).
+Proof. exact served_access_ok. Qed.
+Print Assumptions C16_served_accessibility_is_correct.
